@@ -190,6 +190,10 @@ KERNELS = [
     dict(name='announceListDropped', file='torf/_torrent.py', func='Torrent._trackers_changed',
          pick=('if-test-guarding', "pop('announce-list'"), atoms={'len(trackers.flat)': 'n_urls'},
          params=[('n_urls', 'Int')], ret='Bool'),
+    # --- the type dispatch of utils.encode_value (C05): the exact types that pass, and the converter classes IN ORDER
+    #     (isinstance is tried in this order: str before Sequence, bool before nothing else that would take it, …)
+    dict(name='encodeAllowedTypes', kind='names', file='torf/_utils.py', var='ENCODE_ALLOWED_TYPES'),
+    dict(name='encodeConverterOrder', kind='names', file='torf/_utils.py', var='ENCODE_CONVERTERS'),
     # --- the parameter tables of magnet URIs (C13): literal tuples of names; an element that is itself a tuple
     #     contributes its first component
     dict(name='magnetKnownParameters', kind='strings', file='torf/_magnet.py', func='Magnet',
@@ -1011,7 +1015,31 @@ def translate_loop(repo, k):
         raise CannotTranslate(f'loop translator: {e!r}')
 
 
+def translate_names(repo, k):
+    """a module-level tuple / list (its elements) or dict (its keys, in source order) as the list of the expressions' texts"""
+    tree = ast.parse(open(os.path.join(repo, k['file'])).read())
+    hits = [n for n in tree.body if isinstance(n, ast.Assign) and len(n.targets) == 1 and
+            isinstance(n.targets[0], ast.Name) and n.targets[0].id == k['var']]
+    if len(hits) != 1:
+        raise CannotTranslate(f'{len(hits)} module-level assignments to {k["var"]}')
+    v = hits[0].value
+    if isinstance(v, (ast.Tuple, ast.List)):
+        elts = v.elts
+    elif isinstance(v, ast.Dict):
+        elts = v.keys
+    else:
+        raise CannotTranslate('not a literal tuple / list / dict')
+    out = []
+    for e in elts:
+        if e is None or not isinstance(e, (ast.Name, ast.Attribute)):
+            raise CannotTranslate(f'element {ast.unparse(e) if e is not None else "**"}')
+        out.append('"' + ast.unparse(e) + '"')
+    return f'def {k["name"]} : List String :=\n  [' + ', '.join(out) + ']'
+
+
 def translate_kernel(repo, k):
+    if k.get('kind') == 'names':
+        return translate_names(repo, k)
     if k.get('kind') == 'regex':
         return translate_regex(repo, k)
     if k.get('kind') == 'strings':
